@@ -1158,7 +1158,8 @@ fn c18_history<T: Elem, const N: usize>(seed: u64, idx: u64, ops: u64, mut trace
             let (sv, model, what): (SmallVec<T, N>, Vec<K>, String) = match rng.below(7) {
                 0 => (SmallVec::new(), vec![], "new".into()),
                 1 => {
-                    let c = rng.below(5) as usize;
+                    // mostly around the inline capacity, sometimes large (big heap buffers)
+                    let c = if rng.chance(1, 6) { rng.range(40, 130) as usize } else { rng.below(5) as usize };
                     (SmallVec::with_capacity(c), vec![], format!("with_capacity({c})"))
                 }
                 2 => {
@@ -1194,9 +1195,12 @@ fn c18_history<T: Elem, const N: usize>(seed: u64, idx: u64, ops: u64, mut trace
             pool[pi].0.push(T::make(k));
             pool[pi].1.push(K(k));
         } else if op < 30 {
-            let n = rng.below(4);
+            // usually a few elements; now and then enough to grow the heap buffer well past 64
+            // (under Miri big extends are rare: each element costs tens of milliseconds there)
+            let big = if cfg!(miri) { rng.chance(1, 150) } else { rng.chance(1, 12) };
+            let n = if big { rng.range(30, 100) as u64 } else { rng.below(4) };
             let ks: Vec<u8> = (0..n).map(|_| key(&mut rng)).collect();
-            what = format!("extend({ks:?})");
+            what = if ks.len() > 8 { format!("extend({} elements)", ks.len()) } else { format!("extend({ks:?})") };
             pool[pi].0.extend(ks.iter().map(|&k| T::make(k)));
             pool[pi].1.extend(ks.iter().map(|&k| K(k)));
         } else if op < 36 {
